@@ -166,6 +166,15 @@ class Library:
         j = z3.Int("j!ew")
         ea = z3.Select(a.a, j) if isinstance(a, Arr) else a
         eb = z3.Select(b.a, j) if isinstance(b, Arr) else b
+        if isinstance(op, (ast.Mod, ast.FloorDiv)):
+            ea, eb = toz(ea), toz(eb)
+            if ea.sort() != INT or eb.sort() != INT:
+                raise Unsupported("elementwise // or % on non-integers")
+            used(ex, "int // and % follow Python floor semantics (pymod/pydiv axioms), divisor non-zero is an obligation")
+            if not isinstance(b, Arr):
+                ex.oblige("division-by-nonzero", eb != 0, kind="safety", node=node)
+            e = PYMOD(ea, eb) if isinstance(op, ast.Mod) else PYDIV(ea, eb)
+            return Arr(z3.Lambda([j], e), n)
         e = self.binop(ex, op, ea, eb, node)
         e = toz(e)
         return Arr(z3.Lambda([j], e), n)
